@@ -359,3 +359,71 @@ def run(ctx):
                 img |= built.get(m_, set())
             r.check(len(ms) >= 1 and img == {k}, "Value::write_with/%s/round-trips-to-own-kind" % k, where(vw), "Value::%s is written with %s, which the model builder turns back into Value::%s" % (k, sorted(ms), k),
                     "Value::%s is written with %s, which the model builder turns into %s" % (k, sorted(ms), sorted(img)))
+
+    with ctx.rule("C16.R7", "T12", "resumable recognisers: an event handed to a nested recogniser that needs more events leaves the machine in a state that keeps forwarding to it", floor=6) as r:
+        # The hand-written struct recognisers are state machines over ReadEvents; the value of a field may take several events. When feed_event hands
+        # the current event to the field's recogniser (through the vtable's select_recog or a nested feed_event) and that recogniser answers "more"
+        # (`?` on None), the machine must already be in a state whose arm forwards the following events to the same recogniser. Otherwise the rest
+        # of a multi-event field value (a Vec, a nested struct) is interpreted by the outer machine: the typed reader rejects - or misreads - what
+        # the model path accepts.
+        def forwards(b):
+            """calls that hand the event on: an indirect call (vtable fn pointer) or a nested feed_event with `input` among the arguments"""
+            out = []
+            for c in b.calls:
+                args = [describe_operand(b, a) for a in c.args]
+                if "input" not in args and not any(a.startswith("input") for a in args):
+                    continue
+                if (c.name is None and len(args) >= 2) or c.via_name == "feed_event":
+                    out.append(c)
+            return out
+        n_machines = 0
+        for b in f.all_bodies():
+            if b.meta.get("name") != "feed_event" or "read::recognizer::" not in b.defpath or "{closure" in b.defpath or "::primitive::" in b.defpath:
+                continue
+            sw = [si for si in b.switches_on(lambda p, si: True) if si.get("kind") == "disc" and describe_place(b, si["place"]) in ("self.state", "(*self.state)")]
+            fw = forwards(b)
+            if not sw or not fw:
+                continue
+            si = sw[0]
+            ve = b.variant_edges(si["block"])
+            tag = (b.meta.get("self_adt") or b.defpath).split("::")[-1].split("<")[0]
+            ctx.saw(b)
+            n_machines += 1
+            # states whose arm forwards the event on every path
+            item_states = set()
+            for v, t in ve.items():
+                blocks = {c.block for c in fw if b.dominates(t, c.block) or c.block == t}
+                if blocks and t != si["otherwise"] and b.must_pass([t], blocks)[0] or (t in blocks):
+                    item_states.add(v)
+            if not item_states:
+                # not written as one `match state`: (OrdinalFieldsRecognizer sets its Item state in the fall-through branch before it forwards); not judged
+                r.ok("%s/not-a-match-on-state-machine" % tag, where(b), "the machine is not a single match on its state; the forwarding discipline is not evaluated for it")
+                continue
+            r.ok("%s/forwarding-states" % tag, where(b), "states that forward every event to the field's recogniser: %s" % sorted(item_states))
+            writes = []
+            for i, j, p_, rv, line in b.assigns():
+                if describe_place(b, p_) in ("self.state", "(*self.state)"):
+                    if rv[0] == "agg":
+                        writes.append((i, rv[1].get("variant"), line))
+                    else:
+                        d_ = describe_rvalue(b, rv)
+                        mm = re.match(r"^(?:[\w:]+::)?(\w+)\(.*\)$", d_)
+                        if mm:
+                            writes.append((i, mm.group(1), line))
+            for k_, c in enumerate(sorted(fw, key=lambda x: x.line)):
+                arm = [v for v, t in ve.items() if t != si["otherwise"] and (b.dominates(t, c.block) or t == c.block)]
+                if not arm or set(arm) <= item_states:
+                    continue
+                te = b.try_edges(c)
+                if te is None:
+                    continue  # the result is not propagated with `?`: the arm inspects it itself
+                brk = te[1]
+                # on the way to the "more events needed" return the state must have been set to a forwarding state
+                ok_w = [i for i, v, line in writes if v in item_states and (b.dominates(i, c.block) or i == c.block) and any(b.dominates(t, i) or t == i for t in [ve[a] for a in arm])]
+                later = [i for i, v, line in writes if v in item_states and b.dominates(brk, i)]
+                r.check(bool(ok_w) or bool(later), "%s/%s/forward#%d/resumes-in-a-forwarding-state" % (tag, "|".join(sorted(arm)), k_), c.loc(),
+                        "when the nested recogniser needs more events the machine is in %s, whose arm forwards to it" % sorted({v for i, v, line in writes if i in ok_w + later}),
+                        "in state %s the event is handed to a nested recogniser with `?`, but no state that forwards to it (%s) is set before the early return: a field value that spans several events (a list, a nested struct) is continued in the outer machine, which rejects it or takes its end for the end of the header" % ("|".join(sorted(arm)), sorted(item_states)))
+        if n_machines < 4:
+            raise AnchorMissing("expected the hand-written struct recognisers (found %d state machines that forward events)" % n_machines)
+
